@@ -7,7 +7,7 @@ every traced line / opcode of the library's own files (sys.settrace).
 import sys
 import threading
 
-from .transport import SimAbort
+from .transport import SimAbort, SimHang
 
 RUNNABLE, BLOCKED, WAIT_IO, DONE, NEW = 'R', 'B', 'W', 'D', 'N'
 _WARMED = set()
@@ -83,10 +83,13 @@ class SimLock(object):
 
     def acquire(self, blocking=True, timeout=-1):
         sched = self.sched
-        th = sched.current()
+        th = sched.current() if sched is not None else None
         if th is None:
             if self.owner is not None:
-                raise HarnessError('SimLock %s contended outside the scheduler' % self.name)
+                if not blocking:
+                    return False
+                # single-threaded: nobody can ever release it
+                raise SimHang('lock %s is held and can never be released (self-deadlock)' % self.name)
             self.owner = 'main'
             return True
         sched.yield_point('acq:' + self.name)
@@ -106,6 +109,8 @@ class SimLock(object):
             raise RuntimeError('release unlocked lock')
         self.owner = None
         sched = self.sched
+        if sched is None:
+            return
         for x in sched.threads:
             if x.state == BLOCKED and x.waiting_for is self:
                 x.state = RUNNABLE
